@@ -20,7 +20,7 @@ enum Kind { FLAG, INT, DBL, STR, OPTINT, VECINT, VECSTR };
 static const char* kind_name(Kind k) { static const char* n[] = {"flag", "int", "double", "string", "optional<int>", "vector<int>", "vector<string>"}; return n[k]; }
 inline bool is_vec(Kind k) { return k == VECINT || k == VECSTR; }
 
-struct Check { int type = 0; double a = 0, b = 0; std::string s; };   // 1 lower 2 upper 3 range 4 values 5 minLength 6 maxLength 7 pattern
+struct Check { int type = 0; double a = 0, b = 0; std::string s; };   // 1 lower 2 upper 3 range 4 values 5 minLength 6 maxLength 7 pattern 8 values (ignoring case)
 struct Arg {
    char sk = 0; std::string lk;      // keys; positional argument: both empty
    Kind kind = FLAG;
@@ -41,7 +41,7 @@ struct Cfg {
       for (size_t i = 0; i < args.size(); ++i) {
          const Arg& a = args[i]; s += "{" + a.spec() + ":" + kind_name(a.kind);
          if (a.mandatory) s += " mandatory"; if (a.deprecated) s += " deprecated"; if (a.multival) s += " multival";
-         for (auto& c : a.checks) { static const char* cn[] = {"", "lower", "upper", "range", "values", "minLength", "maxLength", "pattern"}; s += std::string(" ") + cn[c.type] + "("; if (c.type <= 3) { s += std::to_string(int(c.a)); if (c.type == 3) s += "," + std::to_string(int(c.b)); } else if (c.type == 4 || c.type == 7) s += c.s; else s += std::to_string(int(c.a)); s += ")"; }
+         for (auto& c : a.checks) { static const char* cn[] = {"", "lower", "upper", "range", "values", "minLength", "maxLength", "pattern", "values-ignore-case"}; s += std::string(" ") + cn[c.type] + "("; if (c.type <= 3) { s += std::to_string(int(c.a)); if (c.type == 3) s += "," + std::to_string(int(c.b)); } else if (c.type == 4 || c.type == 7 || c.type == 8) s += c.s; else s += std::to_string(int(c.a)); s += ")"; }
          if (a.card) { static const char* kn[] = {"", "exact", "max", "range", "none"}; s += std::string(" card_") + kn[a.card] + "(" + std::to_string(a.cardA) + (a.card == 3 ? "," + std::to_string(a.cardB) : "") + ")"; }
          for (int e : a.excl) s += " excludes(" + args[e].spec() + ")"; for (int e : a.req) s += " requires(" + args[e].spec() + ")";
          if (a.cspell) s += a.cspell == 1 ? " [partner written by short key]" : " [partner written by long key]";
@@ -90,6 +90,7 @@ inline celma::prog_args::detail::ICheck* make_check(const Check& c, Kind k) {
    case 5: return minLength(size_t(c.a));
    case 6: return maxLength(size_t(c.a));
    case 7: return pattern(c.s);
+   case 8: return values(c.s, true);
    }
    return nullptr;
 }
@@ -192,6 +193,7 @@ inline bool conv_dbl(const std::string& t, double& out) {
 inline std::string check_value(const Arg& a, const std::string& v) {
    for (auto& c : a.checks) {
       if (c.type <= 3) { double x; if (!conv_dbl(v, x)) return "convert"; if (c.type == 1 && !(x >= c.a)) return "lower"; if (c.type == 2 && !(x < c.a)) return "upper"; if (c.type == 3 && !(x >= c.a && x < c.b)) return "range"; }
+      else if (c.type == 8) { auto low = [](std::string t) { for (auto& ch : t) ch = char(tolower((unsigned char)ch)); return t; }; bool f = false; size_t p = 0; for (;;) { size_t q = c.s.find(',', p); std::string e = c.s.substr(p, q == std::string::npos ? q : q - p); if (low(e) == low(v)) f = true; if (q == std::string::npos) break; p = q + 1; } if (!f) return "values"; }
       else if (c.type == 4) { bool f = false; size_t p = 0; for (;;) { size_t q = c.s.find(',', p); std::string e = c.s.substr(p, q == std::string::npos ? q : q - p); if (e == v) f = true; if (q == std::string::npos) break; p = q + 1; } if (!f) return "values"; }
       else if (c.type == 5) { if (v.size() < size_t(c.a)) return "minLength"; }
       else if (c.type == 6) { if (v.size() > size_t(c.a)) return "maxLength"; }
